@@ -191,6 +191,7 @@ def c03(ctx):
     if q:
         sched_docs = sched_docs[::6]
     sched = [{"op": "dec.sched.all", "text": t} for t in sched_docs]
+    sched = sched + stream_vectors(ctx, 4 if q else 5, 1)
     ev1 = hs_run(ctx, vt + vj + muts + jm + bombs + sched, "gen")
     ctx.bads += tlc_trace(ctx, "Trace_Total", ev1, shards=14)
     note_events(ctx, ev1, key=lambda e: [e.get("text"), e.get("schedule"), e.get("fail_at"), e.get("open"), e.get("n")])
@@ -242,8 +243,19 @@ def c10(ctx):
                   ["panic observation = catch_unwind in the harness; the specification supplies the universe and judges outcome in {ok, err}"])
 
 
+def stream_vectors(ctx, maxlen, maxintr):
+    """MC of the pull side of the decoder (ZincStream.tla: reader / scanner / lazy row loop) for every grid body of
+    <= maxlen bytes over { 1 2 , NL x }, every Interrupted schedule and an I/O failure at every offset; one replay vector per
+    terminal state"""
+    vecs, _ = tlc_mc(ctx, "MC_ZincStream", consts={"MaxLen": maxlen, "MaxIntr": maxintr, "Datas": "<- MCDatas"},
+                     invariants=["Faithful", "NoReadAhead", "LazyBound", "RowsCorrect", "Emit"], properties=["Termination"],
+                     workers=8, timeout=3000, deadlock=False, cover=("ZincStream", []))
+    return vecs
+
+
 def c11(ctx):
     q = ctx.quick
+    stream = stream_vectors(ctx, 4 if q else 6, 1 if q else 2)
     # stability + reader/buffer equality + iterator rows, on every spelling of the small universe
     sp = texts_of_universe(ctx, 1 if q else 2, list(range(10)))
     v1 = [{"op": "dec.zinc", "text": t, "src": "spelling"} for t in sp]
@@ -267,7 +279,7 @@ def c11(ctx):
     sched = [{"op": "dec.sched.all", "text": t} for t in sched_docs]
     big = [{"op": "dec.sched.big", "rows": 300, "seed": ctx.seed + i} for i in range(1 if q else 6)]
     muts = [{"op": "dec.zinc.mutants", "text": t, "full": not q} for t in texts_of_universe(ctx, 0, [0, 9])]
-    ev1 = hs_run(ctx, v1 + v2 + files + sched + big + muts, "gen")
+    ev1 = hs_run(ctx, v1 + v2 + files + sched + big + muts + stream, "gen")
     ctx.bads += tlc_trace(ctx, "Trace_Total", ev1, shards=14, per_shard_min=50)
     note_events(ctx, ev1, key=lambda e: [e.get("text"), e.get("tree"), e.get("schedule"), e.get("fail_at"), e.get("path"), e.get("row")])
     n = 20000 if q else 200000
@@ -281,7 +293,11 @@ def c11(ctx):
                   "Parser::parse_value over a reader and the lazy row iterator must give the from_str value / the grid's rows; reader "
                   "schedules: all chunkings of texts <= 10 bytes, 1-byte reads, Interrupted before every byte, oversized chunks. "
                   "laziness: 300-row grids (>12 KB) read under 4 schedules, bytes consumed at each yielded row <= end of the first token "
-                  "after that row + 16 (positions computed by the TLA+ reader). distinct = distinct inputs" % (1 if q else 2),
+                  "after that row + 16 (positions computed by the TLA+ reader). MC: ZincStream.tla (reader / scanner / lazy row loop as a "
+                  "state machine) checked for every grid body of <= %d bytes over {1 2 , NL x}, <= %d consecutive Interrupted answers and an "
+                  "I/O error at every offset (Faithful, NoReadAhead, LazyBound, RowsCorrect, Termination under weak fairness); each "
+                  "terminal state replayed through parse_grid_iterator under 4 reader schedules: rows = the machine's rows, bytes consumed "
+                  "at each hand-out <= the machine's + 4. distinct = distinct inputs" % (1 if q else 2, 4 if q else 6, 1 if q else 2),
                   ["the 16-byte slack covers the lexer's bounded look-ahead for number/date disambiguation; a buffering reader or eager "
                    "row collection exceeds it by kilobytes on the 300-row grids"])
 
@@ -359,7 +375,12 @@ def c09(ctx):
                                ("a or ", "b", ""), ("a and ", "b", ""), ("( ", "a", " )")]
              for n in (1, 10, 100, 127, 128, 129, 1000, 10000, 100000)]
     vw = strip_numerals(filter_vectors(ctx, "weq", big=not q))
-    ev1 = hs_run(ctx, vp + muts + bombs + vw, "gen")
+    # string / uri literals spelled with every escape of the MC_Texts escape family (the filter lexer shares the Zinc
+    # scalar readers)
+    ve, _ = tlc_mc(ctx, "MC_Texts", consts={"MaxLen": 3, "Mode": '"esc"', "EmitVectors": "TRUE", "KindFirst": "TRUE"},
+                   invariants=["ReaderTotal", "Emit"], workers=8, timeout=3000)
+    lit = [{"op": "filter.text", "text": [97, 32, 61, 61, 32] + x["text"], "src": "esc"} for x in (ve[::3] if q else ve)]
+    ev1 = hs_run(ctx, vp + muts + bombs + vw + lit, "gen")
     # bombs are dec.bomb events (Trace_Total), the rest filter events (Trace_Filter): split
     evs = read_ndjson(ev1)
     fa = ctx.fresh("filter") + ".ndjson"
@@ -432,7 +453,9 @@ def corrupt_check(ctx, module, events_path, mutate, what, stateful_reset=None):
 def c14(ctx):
     q = ctx.quick
     # all interleavings of the cache protocol on the model (writer- and reader-preferring locks, every shard assignment)
-    ns_mc(ctx, 2, 1, True, "Progs1")
+    # vacuity guard on the first run: every action and branch of NsCache.tla is taken, except the panic branch whose
+    # unreachability is the invariant NoPanic itself
+    ns_mc(ctx, 2, 1, True, "Progs1", cover=("NsCache", [r"panicked' = TRUE", r"UNCHANGED <<ret, held, stack>>", r"^UNCHANGED vars$"]))
     ns_mc(ctx, 2, 1, False, "Progs1")
     ns_mc(ctx, 2, 1, True, "Progs3", keep=True, expect_violation="NoReentry")
     if not q:
@@ -510,11 +533,89 @@ def capi_coverage_guard(ctx):
     return len(names)
 
 
+def _S(t):
+    return {"some": True, "s": [ord(ch) for ch in t]}
+
+
+def capi_scripts(q):
+    """Scripted C API histories (GEN, complementing the MC_CApi enumeration and the random driver):
+    (a) the datetime constructors / getters over zones x dates x times chosen so that the UTC and the local calendar
+        date differ in both directions, with both values of the utc flag;
+    (b) every function that writes through a caller-owned result handle, called twice in a row with the result handle
+        initially holding each kind of value (empty, heap text, list, dict, grid): the previous content must be
+        released (C18) and replaced (C17);
+    (c) in-place overwrites of list / dict entries that own heap data."""
+    P = "V" + "".join(f"{ch}" for ch in "payload-long-enough-to-live-on-the-heap-0123456789")
+    hist = []
+    zones = ["New_York", "Kolkata", "Sydney", "Kiritimati", "London", "UTC", "Honolulu", "Argentina/Buenos_Aires"]
+    dates = [(2021, 1, 1), (2021, 12, 31), (2020, 2, 29), (2021, 3, 14), (2021, 11, 7)]
+    times = [(0, 0, 0, 0), (0, 30, 0, 1), (4, 59, 59, 999), (12, 0, 0, 0), (19, 0, 0, 0), (23, 30, 0, 0), (23, 59, 59, 999)]
+    if q:
+        zones, dates = zones[:5], dates[:3]
+    for z in zones + [None]:
+        for (y, mo, d) in dates:
+            calls = [{"fn": "haystack_value_make_date", "n1": y, "n2": mo, "n3": d, "newh": 1}]
+            h = 2
+            for (hh, mi, ss, ms) in times:
+                t, dt, r = h, h + 1, h + 2
+                h += 3
+                calls.append({"fn": "haystack_value_make_time_millis", "n1": hh, "n2": mi, "n3": ss, "n4": ms, "newh": t})
+                if z is None:
+                    calls.append({"fn": "haystack_value_make_utc_datetime", "h": 1, "h2": t, "newh": dt})
+                else:
+                    calls.append({"fn": "haystack_value_make_tz_datetime", "h": 1, "h2": t, "s": _S(z), "newh": dt})
+                calls.append({"fn": "haystack_value_init", "newh": r})
+                for utc in (True, False):
+                    calls.append({"fn": "haystack_value_get_datetime_date", "h": dt, "b": utc, "h2": r})
+                    calls.append({"fn": "haystack_value_get_datetime_time", "h": dt, "b": utc, "h2": r})
+                calls.append({"fn": "haystack_value_get_datetime_timezone", "h": dt})
+                calls.append({"fn": "haystack_value_to_zinc_string", "h": dt})
+            hist.append({"op": "capi.history", "calls": calls})
+    # (b) result handles
+    base = [{"fn": "haystack_value_make_str", "s": _S(P), "newh": 1},
+            {"fn": "haystack_value_make_dict", "newh": 2},
+            {"fn": "haystack_value_insert_dict_entry", "h": 2, "s": _S("a"), "h2": 1},
+            {"fn": "haystack_value_insert_dict_entry", "h": 2, "s": _S("dis"), "h2": 1},
+            {"fn": "haystack_value_make_list", "newh": 3},
+            {"fn": "haystack_value_push_list_entry", "h": 3, "h2": 2},
+            {"fn": "haystack_value_push_list_entry", "h": 3, "h2": 2},
+            {"fn": "haystack_value_make_grid_from_rows", "h": 3, "newh": 4},
+            {"fn": "haystack_value_make_date", "n1": 2021, "n2": 8, "n3": 13, "newh": 5},
+            {"fn": "haystack_value_make_time", "n1": 2, "n2": 30, "n3": 0, "newh": 6},
+            {"fn": "haystack_value_make_tz_datetime", "h": 5, "h2": 6, "s": _S("New_York"), "newh": 7},
+            {"fn": "haystack_filter_parse", "s": _S("a"), "newf": 1}]
+    holders = {"empty": [{"fn": "haystack_value_init", "newh": 9}],
+               "str": [{"fn": "haystack_value_make_str", "s": _S(P + "-held"), "newh": 9}],
+               "list": [{"fn": "haystack_value_make_list", "newh": 9}, {"fn": "haystack_value_push_list_entry", "h": 9, "h2": 1}],
+               "dict": [{"fn": "haystack_value_make_dict", "newh": 9}, {"fn": "haystack_value_insert_dict_entry", "h": 9, "s": _S("k"), "h2": 1}],
+               "grid": [{"fn": "haystack_value_make_grid_from_rows", "h": 3, "newh": 9}]}
+    writers = [[{"fn": "haystack_value_get_grid_row_at", "h": 4, "idx": 0, "h2": 9}, {"fn": "haystack_value_get_grid_row_at", "h": 4, "idx": 1, "h2": 9}],
+               [{"fn": "haystack_value_get_dict_keys", "h": 2, "h2": 9}] * 2,
+               [{"fn": "haystack_value_get_datetime_date", "h": 7, "b": True, "h2": 9}, {"fn": "haystack_value_get_datetime_time", "h": 7, "b": False, "h2": 9}],
+               [{"fn": "haystack_filter_first_match_in_grid", "fid": 1, "h": 4, "h2": 9}] * 2,
+               [{"fn": "haystack_filter_match_all_grid", "fid": 1, "h": 4, "h2": 9}] * 2]
+    for hk, mk in holders.items():
+        for w in writers:
+            for reps in (1, 4):
+                hist.append({"op": "capi.history", "calls": base + mk + [dict(c) for c in w] * reps + [{"fn": "haystack_value_to_zinc_string", "h": 9}]})
+    # (c) overwriting entries that own heap data
+    hist.append({"op": "capi.history", "calls": base + [
+        {"fn": "haystack_value_set_list_entry_at", "h": 3, "idx": 0, "h2": 1}, {"fn": "haystack_value_set_list_entry_at", "h": 3, "idx": 0, "h2": 4},
+        {"fn": "haystack_value_set_list_entry_at", "h": 3, "idx": 1, "h2": 3}, {"fn": "haystack_value_remove_list_entry_at", "h": 3, "idx": 0},
+        {"fn": "haystack_value_insert_dict_entry", "h": 2, "s": _S("a"), "h2": 4}, {"fn": "haystack_value_insert_dict_entry", "h": 2, "s": _S("a"), "h2": 2},
+        {"fn": "haystack_value_remove_dict_entry", "h": 2, "s": _S("a")}, {"fn": "haystack_value_remove_dict_entry", "h": 2, "s": _S("a")},
+        {"fn": "haystack_value_get_dict_entry", "h": 2, "s": _S("dis")}, {"fn": "haystack_value_get_list_entry_at", "h": 3, "idx": 0},
+        {"fn": "haystack_value_to_json_string", "h": 3}, {"fn": "haystack_value_to_zinc_string", "h": 2}]})
+    return hist
+
+
 def c17(ctx):
     q = ctx.quick
     nfn = capi_coverage_guard(ctx)
+    # cover: every branch of CApi!Apply (success and each failure of each function) is evaluated by the enumeration
     vecs, _ = tlc_mc(ctx, "MC_CApi", consts={"Depth": 2 if q else 3}, invariants=["FailureIsClean", "SuccessKeepsError", "PoolIsValues", "AllModelled", "Emit"],
-                     workers=8, timeout=3000)
+                     workers=8, timeout=3000, cover=("CApi", []))
+    vecs = vecs + capi_scripts(q)
     ev1 = hs_run(ctx, vecs, "gen")
     ctx.bads += tlc_trace_stateful(ctx, "Trace_CApi", ev1, "capi.begin", shards=14)
     note_events(ctx, ev1, key=lambda e: ["g", e.get("i")], trivial=lambda e: e.get("op") != "capi")
@@ -550,6 +651,7 @@ def c18(ctx):
     capi_coverage_guard(ctx)
     vecs, _ = tlc_mc(ctx, "MC_CApi", consts={"Depth": 2 if q else 3}, invariants=["FailureIsClean", "SuccessKeepsError", "PoolIsValues", "AllModelled", "Emit"],
                      workers=8, timeout=3000)
+    vecs = vecs + capi_scripts(q)
     asan_log = ctx.path("asan-stderr.log")
     if os.path.exists(asan_log):
         os.remove(asan_log)
